@@ -130,7 +130,7 @@ func detectDragFilesOnMacOS(buf []byte) ([]string, bool, bool) {
 			return nil, false, false
 		}
 		if length > 1 && (buf[length-1] != ' ' || buf[length-2] == '\\') {
-			buf = append(buf, ' ')
+			buf = append(buf[:length:length], ' ') // copy: never write into the caller's input
 			length = len(buf)
 		}
 	}
